@@ -498,7 +498,13 @@ def r01_2(ctx: Ctx):
                         obs.append(ctx.ob("R01.2", f, cs.node, status=INCONCLUSIVE, detail=f"{ci.name}: scipy is called with **kwargs the analyser cannot expand", construct=f"{ci.name}:scipy-bounds"))
                         continue
                     fsn = (f.self_name() if f.parent is None else f.parent.self_name()) or "self"
-                    ok = b is not None and is_self_attr(b, "_bounds", fsn)
+                    ok = b is not None and (is_self_attr(b, "_bounds", fsn) or norm(b) in (f"{fsn}._config.bounds", f"{fsn}._problem.bounds", f"{fsn}._config.problem.bounds"))
+                    none_arm = b is not None and any(isinstance(x, ast.IfExp) and any(isinstance(a_, ast.Constant) and a_.value is None for a_ in (x.body, x.orelse)) for x in ast.walk(b))
+                    if not ok and b is not None and not none_arm and not (isinstance(b, ast.Constant) or isinstance(b, (ast.BinOp, ast.List, ast.Tuple))):
+                        bs_ = _box_status(b, fsn, local_defs(f))
+                        if bs_ not in ("modified", "none"):
+                            obs.append(ctx.ob("R01.2", f, cs.node, status=INCONCLUSIVE, detail=f"{ci.name}: scipy.optimize.minimize is called with bounds={norm(b)}: not recognised as the level's box", construct=f"{ci.name}:scipy-bounds"))
+                            continue
                     obs.append(ctx.ob("R01.2", f, cs.node, status=OK if ok else VIOLATION, detail=f"{ci.name}: scipy is given bounds=self._bounds" if ok else f"{ci.name}: scipy.optimize.minimize is called with bounds={norm(b) if b is not None else '<missing>'}: the local search leaves the box", construct=f"{ci.name}:scipy-bounds"))
                     x0 = cs.node.args[1] if len(cs.node.args) > 1 else ekw.get("x0")
                     d = local_defs(f)
@@ -692,6 +698,11 @@ def _affine_ok(ctx, ci, f, e, sn, defs, unit_names=()):
             if col(a) == "lower" and isinstance(b, ast.BinOp) and isinstance(b.op, ast.Mult):
                 for s, w in ((b.left, b.right), (b.right, b.left)):
                     w = res(w)
+                    if is_self_attr(w, None, sn):
+                        # a width computed once in the constructor and kept (`self._side_lengths = self.upper - self.lower`)
+                        stores = [(m_, y) for m_ in ci.methods.values() for y in body_walk(m_.node) if isinstance(y, (ast.Assign, ast.AugAssign, ast.AnnAssign)) and any(is_self_attr(t_, w.attr, m_.self_name()) for t_ in (y.targets if isinstance(y, ast.Assign) else [y.target]))]
+                        if len(stores) == 1 and stores[0][0].name == "__init__" and isinstance(stores[0][1], (ast.Assign, ast.AnnAssign)) and stores[0][1].value is not None:
+                            w = stores[0][1].value
                     if is_unit_sample(s) and isinstance(w, ast.BinOp) and isinstance(w.op, ast.Sub) and col(w.left) == "upper" and col(w.right) == "lower":
                         return True, "lower + unit sample * (upper - lower)"
         return False, f"!`{norm(e)[:80]}` is not the affine map lower + u * (upper - lower) of a unit-cube sample: samples can land outside the box"
@@ -977,7 +988,19 @@ def r01_4(ctx: Ctx):
     vt = canon(st[0].value, idefs) if len(st) == 1 else "?"
     bs = _box_status(st[0].value, init.self_name(), idefs) if len(st) == 1 else "unknown"
     status = OK if (len(st) == 1 and (vt.endswith(".config.bounds") or vt.endswith(".config.problem.bounds"))) else VIOLATION if (not st or bs in ("modified", "none")) else INCONCLUSIVE
-    obs.append(ctx.ob("R01.4", init, st[0] if st else init.node, status=status, detail="deme bounds = level config bounds" if status == OK else f"deme bounds are `{norm(st[0].value) if st else '?'}`", construct="deme-bounds"))
+    if not st:
+        # `_bounds` may be a read-only property of the deme that reads the level configuration
+        pm = ctx.prog.lookup_method(ctx.prog.cls("AbstractDeme"), "_bounds")
+        if pm is not None:
+            rets = [r.value for r in body_walk(pm.node) if isinstance(r, ast.Return) and r.value is not None]
+            cfg_ok = len(rets) == 1 and norm(rets[0]) in (f"{pm.self_name()}._config.bounds", f"{pm.self_name()}._config.problem.bounds", f"{pm.self_name()}._problem.bounds")
+            cst = [n for n in body_walk(init.node) if isinstance(n, (ast.Assign, ast.AnnAssign)) and any(is_self_attr(t, "_config", init.self_name()) for t in (n.targets if isinstance(n, ast.Assign) else [n.target]))]
+            cfg_src = len(cst) == 1 and canon(cst[0].value, idefs).endswith(".config")
+            status = OK if (cfg_ok and cfg_src) else INCONCLUSIVE
+            obs.append(ctx.ob("R01.4", pm, pm.node, status=status, detail="deme bounds = level config bounds (read through a property)" if status == OK else f"deme bounds are computed by the property `_bounds` (`{norm(rets[0]) if rets else '?'}`): not recognised as the level configuration's box", construct="deme-bounds"))
+            st = None
+    if st is not None:
+      obs.append(ctx.ob("R01.4", init, st[0] if st else init.node, status=status, detail="deme bounds = level config bounds" if status == OK else f"deme bounds are `{norm(st[0].value) if st else '?'}`", construct="deme-bounds"))
     others = []
     base = ctx.prog.cls("AbstractDeme")
     for ci in [base] + ctx.prog.subclasses(base):
